@@ -41,7 +41,8 @@ Urgent(s) == IF s.cur >= 0 /\ s.cur \in Live(s) /\ Ph(s, s.cur) = "ready"
                    \* - except that a thread whose exit would end the execution while detached tasks are still unfinished
                    \*   passes a scheduling point first (thread_fn: exit_current_truncates_execution)
                    \/ /\ NextOp(s, s.cur).k = "exit" /\ CanBlock(s, s.cur)
-                      /\ (s.fut[s.cur+1] \/ Attached(s) \ {s.cur} # {} \/ Live(s) \ {s.cur} = {})
+                      \*   (the main thread always does)
+                      /\ (s.fut[s.cur+1] \/ (s.cur # 0 /\ (Attached(s) \ {s.cur} # {} \/ Live(s) \ {s.cur} = {})))
              THEN {s.cur} ELSE {}
 Next ==
   /\ S.panicked = ""
